@@ -1,6 +1,175 @@
-/-! Driver entry for property C10 (stub: not implemented yet). -/
-namespace HeartwoodModel.Driver.C10
+import HeartwoodModel.Model.Gossip
+import HeartwoodModel.Driver.Util
+/-!
+Driver entry for C10 (and, through `runGossip`, for C11 and C29: the three properties share the model
+`Model/Gossip.lean`, the case syntax and the canonical output).
 
-def run (_args : List String) : String := "unimplemented"
+Case: `<t0> <isRelay> <op> <op> …`, `t0` = local time (ms) at which the node was initialised on an empty
+storage. Ops (fields separated by `,`; node id `0` is the local node; lists joined by `+`, `-` = empty):
+
+* `c,<p>,<i|o>`                     peer `p` connects (inbound / outbound)
+* `d,<p>`                           peer `p` disconnects
+* `a,<p>,<node>,<n|i|r>,<repo>,<ts>,<sigOk>,<payload>`   `p` delivers an announcement; payload: inventory
+                                    rids (`i`), refs non-empty `0/1` (`r`), SEED feature `0/1` (`n`)
+* `s,<p>,<filter>,<since>,<until>`  `p` subscribes; filter `*` (all ones) or rids
+* `e,<dt>`                          `clock += dt; wake()`
+* `k,<t>`                           `Service::tick(t)`
+* `j,<t>`                           raw clock write (may go backwards)
+* `r,<rid>` `i,<rid>` `I` `z,<rid>` `u,<rid>`   AnnounceRefs / AddInventory / AnnounceInventory / seed / unseed
+* `f,<rid>,<p>,<clone>,<upd>`       a fetch of `rid` from `p` succeeded
+* `R`                               `initialize` again (`Peer::restart`)
+* `n,<nid>,<ts>`                    the address book learns node `nid` (as a SEED node announcement would)
+* `p,<rid>,<present>,<priv>,<delegates>,<allow>,<oid|->,<ctime>`   repository `rid` is now this
+
+Output: one group per op, joined by `|`: `.` if nothing was written, nobody disconnected and the gossip
+store did not change, else `w=<writes> d=<disconnects> s=<rows>` with writes `peer>node.k.repo.ts[:inv]`,
+disconnects `peer!m` (misbehaviour) / `peer!t` (invalid timestamp), rows `node.k.repo.ts` (`s==` if unchanged); every list sorted.
+-/
+namespace HeartwoodModel.Driver.C10
+open HeartwoodModel.Gossip HeartwoodModel.Driver.Util
+
+def plusNats? (s : String) : Option (List Nat) :=
+  if s == "-" then some [] else (splitOn s '+').mapM nat?
+
+def kind? (s : String) : Option Kind :=
+  if s == "n" then some .node else if s == "i" then some .inv else if s == "r" then some .refs else none
+
+def kindStr : Kind → String
+  | .node => "n"
+  | .inv => "i"
+  | .refs => "r"
+
+def parseOp (tok : String) : Option Op :=
+  match splitOn tok ',' with
+  | ["c", p, l] => do
+    let p ← nat? p
+    if l == "i" || l == "o" then some (.connect p) else none
+  | ["d", p] => (nat? p).map .disconnect
+  | ["a", p, node, k, repo, ts, sig, payload] => do
+    let p ← nat? p; let node ← nat? node; let k ← kind? k; let repo ← nat? repo
+    let ts ← nat? ts; let sig ← bool? sig
+    match k with
+    | .inv =>
+      if repo != 0 then none else
+      let inv ← plusNats? payload
+      some (.recv p { id := ⟨node, k, 0, ts⟩, sigOk := sig, inv := inv, refsNonEmpty := false, seedFeature := false })
+    | .refs =>
+      let b ← bool? payload
+      some (.recv p { id := ⟨node, k, repo, ts⟩, sigOk := sig, inv := [], refsNonEmpty := b, seedFeature := false })
+    | .node =>
+      if repo != 0 then none else
+      let b ← bool? payload
+      some (.recv p { id := ⟨node, k, 0, ts⟩, sigOk := sig, inv := [], refsNonEmpty := false, seedFeature := b })
+  | ["s", p, f, since, until_] => do
+    let p ← nat? p; let since ← nat? since; let until_ ← nat? until_
+    let f ← (if f == "*" then some Filter.all else (plusNats? f).map Filter.set)
+    some (.subscribe p { filter := f, since, until_ })
+  | ["e", dt] => (nat? dt).map .elapse
+  | ["k", t] => (nat? t).map .tick
+  | ["j", t] => (nat? t).map .setClock
+  | ["r", rid] => (nat? rid).map .announceRefs
+  | ["i", rid] => (nat? rid).map .addInventory
+  | ["I"] => some .announceInventory
+  | ["z", rid] => (nat? rid).map .seed
+  | ["u", rid] => (nat? rid).map .unseed
+  | ["f", rid, p, clone, upd] => do
+    let rid ← nat? rid; let p ← nat? p; let clone ← bool? clone; let upd ← bool? upd
+    some (.fetched rid p clone upd)
+  | ["R"] => some .restart
+  | ["n", nid, ts] => do
+    let nid ← nat? nid; let ts ← nat? ts
+    some (.knowNode nid ts)
+  | ["p", rid, present, priv, dels, allow, oid, ctime] => do
+    let rid ← nat? rid; let present ← bool? present; let priv ← bool? priv
+    let dels ← plusNats? dels; let allow ← plusNats? allow; let ctime ← nat? ctime
+    let own ← (if oid == "-" then some none else (nat? oid).map (fun o => some (o, ctime)))
+    some (.setRepo { rid, present, priv, delegates := dels, allow, ownRefs := own })
+  | _ => none
+
+/-- Environment preconditions the harness guarantees (the harness answers `bad-case` otherwise):
+peers are not the local node; a peer connects only when it has no session; the raw clock stays above
+`gossip_max_age` (else `now - gossip_max_age` underflows); no message is received at a clock reading
+lower than an earlier one (the rate limiter panics on a backwards clock — C17); a successful fetch is
+only reported for a repository in storage; timestamps of delivered announcements fit an `i64`. `hi` is
+the highest clock reading at which a message was received so far. -/
+def admissible (s : State) (hi : Nat) : Op → Bool
+  | .connect p => p != 0 && p < 8 && !hasSession s p
+  | .disconnect p => p != 0 && p < 8
+  | .recv p a =>
+    p != 0 && p < 8 && hi ≤ s.clock && a.id.ts ≤ I64MAX && a.id.node < 8 && a.id.repo < 6 &&
+    a.inv.all (· < 6)
+  | .subscribe p sb =>
+    p != 0 && p < 8 && hi ≤ s.clock &&
+    (match sb.filter with
+     | .all => true
+     | .set l => l.all (· < 6))
+  | .setClock t => GOSSIP_MAX_AGE ≤ t
+  | .tick t => GOSSIP_MAX_AGE ≤ t
+  | .fetched rid p _ _ => p != 0 && p < 8 && (storageGet s rid).isSome
+  | .setRepo r =>
+    r.rid < 6 && (r.present || r.ownRefs.isNone) && (!r.present || !r.delegates.isEmpty) &&
+    (r.delegates ++ r.allow).all (· < 8)
+  | .knowNode nid ts => nid != 0 && nid < 8 && ts ≤ I64MAX
+  | .announceRefs rid => rid < 6
+  | .addInventory rid => rid < 6
+  | .seed rid => rid < 6
+  | .unseed rid => rid < 6
+  | _ => true
+
+def annStr (id : AnnId) : String :=
+  s!"{id.node}.{kindStr id.kind}.{id.repo}.{id.ts}"
+
+def sortStrs (xs : List String) : List String := xs.mergeSort (fun a b => decide (a ≤ b))
+
+def sortNats (xs : List Nat) : List Nat := xs.mergeSort (fun a b => decide (a ≤ b))
+
+def showList (xs : List String) : String :=
+  if xs.isEmpty then "-" else joinWith "," (sortStrs xs)
+
+def writeStr (w : Write) : String :=
+  let base := s!"{w.peer}>{annStr w.id}"
+  if w.id.kind == .inv then
+    base ++ ":" ++ (if w.inv.isEmpty then "-" else joinWith "+" ((sortNats w.inv.eraseDups).map toString))
+  else base
+
+def discStr (d : Nat × Reason) : String :=
+  match d.2 with
+  | .misbehavior => s!"{d.1}!m"
+  | .invalidTimestamp => s!"{d.1}!t"
+
+def rowsStr (s : State) : String := showList (s.rows.map (fun r => annStr r.id))
+
+def stepStr (s s' : State) (o : Out) : String :=
+  let rs := rowsStr s'
+  let changed := rs != rowsStr s
+  if o.writes.isEmpty && o.discs.isEmpty && !changed then "."
+  else s!"w={showList (o.writes.map writeStr)} d={showList (o.discs.map discStr)} s={if changed then rs else "="}"
+
+def go (s : State) (hi : Nat) : List Op → List String → Option (List String)
+  | [], acc => some acc.reverse
+  | op :: ops, acc =>
+    if !admissible s hi op then none
+    else
+      let r := step s op
+      let hi' := match op with
+        | .recv _ _ => max hi s.clock
+        | .subscribe _ _ => max hi s.clock
+        | _ => hi
+      go r.1 hi' ops (stepStr s r.1 r.2 :: acc)
+
+/-- Shared by the C10, C11 and C29 drivers. -/
+def runGossip (args : List String) : String :=
+  match args with
+  | t0 :: rel :: ops =>
+    match nat? t0, bool? rel, ops.mapM parseOp with
+    | some t0, some rel, some ops =>
+      if t0 < GOSSIP_MAX_AGE || t0 > 1125899906842624 then "bad-op"
+      else match go (init t0 rel) 0 ops [] with
+        | some outs => if outs.isEmpty then "-" else joinWith "|" outs
+        | none => "bad-op"
+    | _, _, _ => "bad-op"
+  | _ => "bad-op"
+
+def run (args : List String) : String := runGossip args
 
 end HeartwoodModel.Driver.C10
